@@ -1,4 +1,4 @@
-// VERIF: rc lib quick_shards=4 fuzz=raw_vector_histories,buffer_histories
+// VERIF: rc lib quick_shards=4 fuzz=raw_vector_histories,buffer_histories fuzz_quick=1
 // C07 - raw_vector and buffer behave like std::vector for every operation history.
 // Stateful model-based test: a history is a vector of 4-word frames (opcode + 3 operands, each
 // reduced modulo what is valid in the current state); oracle = std::vector driven by the same
